@@ -117,7 +117,19 @@ def from_progression(sh, key):
     r = NoteContainer().from_progression_shorthand(sh, key)
     return False if r is False else state(r)
 
+def reused(pre, which, *args):
+    """a container that already holds notes is re-built from a shorthand: the old notes must be gone"""
+    nc = NoteContainer([Note(x[0], x[1]) for x in pre])
+    if which == "chord":
+        return state(nc.from_chord_shorthand(*args))
+    if which == "interval":
+        nm, o, sh, up = args
+        return state(nc.from_interval_shorthand(Note(nm, o), sh, up))
+    r = nc.from_progression_shorthand(*args)
+    return False if r is False else state(r)
+
 IMPL = {
+    "nc.reused": reused,
     "nc.run": run,
     "nc.run2": run2,
     "nc.from_chord": lambda sh: state(NoteContainer().from_chord_shorthand(sh)),
@@ -211,6 +223,16 @@ def cases(tier, rng):
     for key in ["C", "F#", "Eb", "a", "c#", "ab", "d", "A", "D"]:
         for num in ["I", "ii", "iii7", "IV", "V7", "bVII", "#ivdim7", "VIm7", "X", "i", "III", "vi7"]:
             yield Case("nc.from_progression", [num, key], "from_progression", kind=("prog",))
+    # the shorthand constructors on a container that is already in use (they start from an empty container)
+    for pre in ([["C", 2]], [["G", 5], ["A", 6]], [["C", 4], ["E", 4], ["G", 4]], [["B", 7]]):
+        for r, k in [("C", "M"), ("A", "m7"), ("Eb", "7b9"), ("F#", "dim7"), ("G", "13")]:
+            if k in FORMULA:
+                yield Case("nc.reused", [pre, "chord", r + k], "reused/chord", model=False, kind=("chord", r, k))
+        for nm, sh, up in [("C", "3", True), ("A", "b7", False), ("F#", "5", True)]:
+            yield Case("nc.reused", [pre, "interval", nm, 4, sh, up], "reused/interval", model=False, kind=("interval",),
+                       inner=[nm, 4, sh, up])
+        for num, key in [("I", "C"), ("V7", "Eb"), ("ii", "a")]:
+            yield Case("nc.reused", [pre, "prog", num, key], "reused/progression", model=False, kind=("prog",), inner=[num, key])
     for _ in range(100):
         items = [[rng.choice(roots), rng.randint(2, 6)] for _ in range(rng.randint(1, 5))]
         yield Case("nc.misc", [items], "misc", model=False, kind=("misc",))
@@ -393,7 +415,7 @@ def oracle(c, obs):
                 return "chord notes are not voiced upward within an octave of the previous top note"
         return None
     if kind[0] == "interval":
-        nm, o, sh, up = c["args"]
+        nm, o, sh, up = c.get("inner") or c["args"]
         if isinstance(obs, Err):
             return "constructor raised"
         deg = int(sh[-1])
@@ -413,7 +435,8 @@ def oracle(c, obs):
             return None                                   # unknown numerals: the model comparison decides
         if any(not 0 <= offset(n) <= 11 for n, q in obs):
             return None                                   # B#/Cb-type names: the recorded voicing finding's domain
-        want_names = progressions.to_chords([c["args"][0]], c["args"][1])
+        pa = c.get("inner") or c["args"]
+        want_names = progressions.to_chords([pa[0]], pa[1])
         if want_names and [n for n, q in obs] != want_names[0]:
             return "container built from progression shorthand does not hold the chord's notes in order (the key's case matters: 'a' is A minor)"
         if obs[0][1] != 4:
